@@ -150,6 +150,27 @@ Example T12_example_coupling :
   map (coupling_words 1 true 2 true 1 3) [0; 1; 2; 3; 4] = [Some []; Some [Op 1 true; JWl]; Some [JWl]; Some [Op 2 true]; Some []].
 Proof. vm_compute. split; reflexivity. Qed.
 
+(* MPS._term_to_ops_list(term, autoJW=True, i_offset, JW_from_right) for EVERY term and JW_from_right in {None, False, True}
+   (model term_to_ops_list of Model/JW.v, run against the implementation in stream `mpsterm` of harness/c12.py): the returned
+   flag has_extra_JW is the fermion parity of the term xor the string coming in from the right -- and for None (the value is
+   chosen as the parity of the term) the flag is still that parity, which is what term_list_correlation_function_right uses to
+   pair odd left terms with odd right terms; the per-site words are those of JW_from_right=False with one more JW appended on
+   every site iff a string comes in from the right; i_min is the left-most site of the term *)
+Theorem T12_term_to_ops_list_flag : forall term jfr,
+  let from_right := match jfr with Some b => b | None => total_parity term end in
+  snd (term_to_ops_list term true jfr) =
+    match jfr with Some b => xorb (total_parity term) b | None => total_parity term end /\
+  fst (fst (term_to_ops_list term true jfr)) =
+    (if from_right then map (fun w => (w ++ [JWl])%list) (fst (fst (term_to_ops_list term true (Some false))))
+     else fst (fst (term_to_ops_list term true (Some false)))) /\
+  snd (fst (term_to_ops_list term true jfr)) = min_site term.
+Proof. exact term_to_ops_list_flag. Qed.
+
+Example T12_example_ops_list :
+  term_to_ops_list (mk_items [(1, 2, true); (2, 0, false); (3, 1, true); (4, 2, true)]) true None =
+    ([[JWl; Op 2 false; JWl; JWl; JWl]; [JWl; Op 3 true; JWl; JWl]; [Op 1 true; Op 4 true; JWl]], 0, true).
+Proof. vm_compute. reflexivity. Qed.
+
 Print Assumptions T12_coverage.
 Print Assumptions T12_tables_wellformed.
 Print Assumptions T12_same_operator_up_to_perm.
@@ -163,3 +184,4 @@ Print Assumptions T12_CAR_offsite.
 Print Assumptions T12_CAR_onsite.
 Print Assumptions T12_handle_JW_closed_form.
 Print Assumptions T12_coupling_JW.
+Print Assumptions T12_term_to_ops_list_flag.
